@@ -1244,5 +1244,38 @@ def selftest():
     recs[k]["groups"] = recs[k]["groups"][::-1]
     (wd / "g_bad.ndjson").write_text("".join(json.dumps(r, separators=(",", ":")) + "\n" for r in recs))
     expect("grouping record with groups out of order", wd / "g_bad.ndjson", True)
+    # accessor view of the ops (C11) and a late deadline check (C07 probe_gap)
+    good2 = [json.loads(json.dumps(r)) for r in good]
+    k = next(i for i, r in enumerate(good2) if len(r.get("acc", [])) >= 2)
+    good2[k]["acc"][1][3] += 1
+    (wd / "o_bad2.ndjson").write_text("".join(json.dumps(r, separators=(",", ":")) + "\n" for r in good2))
+    expect("captured ops whose accessor view disagrees", wd / "o_bad2.ndjson", True)
+    t = wd / "c07.ndjson"
+    core.run_sv(["drive", "c07", "--out", t, "--tier", "quick", "--seed", 7])
+    lines = open(t).read().splitlines(True)
+    # one case with a never-expiring clock, no adapter stack and at least two probes
+    start = next(i for i, l in enumerate(lines) if '"ev":"start"' in l and '"fuel":-1' in l and '"stack":"none"' in l
+                 and sum(1 for x in lines[i + 1:i + 200] if '"ev":"probe"' in x
+                         and lines[i + 1:i + 200].index(x) < next((j for j, y in enumerate(lines[i + 1:i + 200]) if '"ev":"ret"' in y), 0)) >= 2)
+    end = next(j for j in range(start + 1, len(lines)) if '"ev":"ret"' in lines[j] or '"ev":"panic"' in lines[j])
+    case = lines[start:end + 1]
+    (wd / "p_ok.ndjson").write_text("".join(case))
+    expect("deadline case as recorded", wd / "p_ok.ndjson", False)
+    bad = list(case)
+    r = json.loads(bad[-1]); r["cmps"] += 100000; bad[-1] = json.dumps(r, separators=(",", ":")) + "\n"
+    (wd / "p_bad.ndjson").write_text("".join(bad))
+    expect("deadline case with 100 000 comparisons after the last check", wd / "p_bad.ndjson", True)
+    # expansion through other Iterator methods (C13)
+    t = wd / "c13.ndjson"
+    core.run_sv(["drive", "c13", "--out", t, "--tier", "quick", "--seed", 7])
+    recs = [json.loads(l) for l in open(t).read().splitlines()[:300]]
+    (wd / "e_ok.ndjson").write_text("".join(json.dumps(r, separators=(",", ":")) + "\n" for r in recs))
+    expect("expansion records as recorded", wd / "e_ok.ndjson", False)
+    k = next(i for i, r in enumerate(recs) if r.get("ev") == "expand1" and any(v[0] == "skip" and v[1] == 1 and len(v[2]) >= 1 for v in r.get("via", [])))
+    for v in recs[k]["via"]:
+        if v[0] == "skip" and v[1] == 1:
+            v[2] = v[2][1:]
+    (wd / "e_bad.ndjson").write_text("".join(json.dumps(r, separators=(",", ":")) + "\n" for r in recs))
+    expect("expansion record whose skip(1) view lost a change", wd / "e_bad.ndjson", True)
     print("selftest: " + ("all binding checks behaved as expected" if not failures else f"{failures} UNEXPECTED result(s)"))
     return 0 if not failures else 2
